@@ -291,3 +291,51 @@ where
         self.node.borrow_mut().drop_output(self.key)
     }
 }
+
+// Verification hooks (compiled only with `--cfg rustaudio_dasp_verif`): read-only views of the
+// shared backlog, which the public API cannot observe (a retained-but-skipped backlog delivers the
+// same frames as a trimmed one).
+#[cfg(rustaudio_dasp_verif)]
+impl<S> SharedNode<S>
+where
+    S: Signal,
+{
+    fn verif_read_offsets(&self) -> (usize, usize, usize) {
+        let count = self.frames_read.len();
+        let min = self.frames_read.values().cloned().min().unwrap_or(0);
+        let max = self.frames_read.values().cloned().max().unwrap_or(0);
+        (count, min, max)
+    }
+}
+
+#[cfg(rustaudio_dasp_verif)]
+impl<S> Bus<S>
+where
+    S: Signal,
+{
+    /// The number of frames currently retained in the shared backlog.
+    pub fn verif_backlog_len(&self) -> usize {
+        self.node.borrow().buffer.len()
+    }
+
+    /// `(number of registered outputs, smallest read offset, largest read offset)`.
+    pub fn verif_read_offsets(&self) -> (usize, usize, usize) {
+        self.node.borrow().verif_read_offsets()
+    }
+}
+
+#[cfg(rustaudio_dasp_verif)]
+impl<S> Output<S>
+where
+    S: Signal,
+{
+    /// The number of frames currently retained in the shared backlog.
+    pub fn verif_backlog_len(&self) -> usize {
+        self.node.borrow().buffer.len()
+    }
+
+    /// `(number of registered outputs, smallest read offset, largest read offset)`.
+    pub fn verif_read_offsets(&self) -> (usize, usize, usize) {
+        self.node.borrow().verif_read_offsets()
+    }
+}
